@@ -250,6 +250,25 @@ let vers_of (segs0 : seg list) (ms : msg list) : string =
             then (if sg.sver = V2 && not (sg.srecs = [] && false) then "2" else if sg.srecs = [] then "1" else "1")
             else acc) "?" segs0 in v) ms)
 
+(* mirror of kvrun rewrittenVer: format of the segment holding the survivors of the segment a Delete rewrote *)
+let rewritten_ver (segs0 : seg list) (segs1 : seg list) (ms : msg list) : string =
+  match ms with
+  | [] -> ""
+  | m0 :: _ ->
+    let lo = List.fold_left (fun acc m -> if Z.ltb m.moff acc then m.moff else acc) m0.moff ms in
+    let big = z_of_string "4611686018427387904" in
+    let rec find l (src, upper) = match l with
+      | [] -> (src, upper)
+      | s :: r -> if Z.leb s.sbase lo
+        then find r (Some s.sbase, (match r with n :: _ -> n.sbase | [] -> big))
+        else (src, upper) in
+    (match find segs0 (None, big) with
+     | (None, _) -> ">?"
+     | (Some src, upper) ->
+       (match List.filter (fun s -> Z.leb src s.sbase && Z.ltb s.sbase upper && s.srecs <> []) segs1 with
+        | s :: _ -> if s.sver = V2 then ">2" else ">1"
+        | [] -> ">-"))
+
 let fmt_trim segs0 (r : ((lstate * msg list) * z) * ierr option) st : string =
   let (((s', ms), sz), eo) = r in
   st.s <- s';
@@ -392,7 +411,7 @@ let step st (f : string array) : string list =
     let segs0 = st.s.segs in
     (match log_delete h st.s (parse_offsets (a 1)) with
      | Err e -> [err e]
-     | Ok (s', (ms, sz)) -> st.s <- s'; [Printf.sprintf "ok %s %s%s" (string_of_z sz) (vers_of segs0 ms) (fmt_msgs ms)])
+     | Ok (s', (ms, sz)) -> st.s <- s'; [Printf.sprintf "ok %s %s%s%s" (string_of_z sz) (vers_of segs0 ms) (rewritten_ver segs0 s'.segs ms) (fmt_msgs ms)])
   | "delm" ->
     (match get_cfg st.s with
      | Err e -> [err e]
@@ -565,6 +584,7 @@ type cst = {
   mutable cro_ : bool;
   mutable copen : bool;
   mutable cnewv : ver;
+  mutable ckeepv : bool;
   mutable v1ok : bool;
   mutable v2ok : bool;
   mutable mono_hist : bool;
@@ -581,7 +601,7 @@ type cst = {
 }
 
 let cfresh () = { a = empty_log; ckeys_ = false; ctimes_ = false; cro_ = false; copen = false;
-                  cnewv = V2; v1ok = false; v2ok = false; mono_hist = true; neg_time = false;
+                  cnewv = V2; ckeepv = false; v1ok = false; v2ok = false; mono_hist = true; neg_time = false;
                   last_pub_time = None; last_stat_size = None; size_bound = None;
                   cons1 = []; gets = []; bk = []; tainted = false; migrated = None; files_after_migrate = None }
 
@@ -600,6 +620,7 @@ let p_msg rest = match rest with m :: _ -> parse_full_msg m | [] -> failwith "ms
 let parse_vers (tok : string) : ver list =
   (* "v=1221" or "v=-" *)
   let body = String.sub tok 2 (String.length tok - 2) in
+  let body = (match String.index_opt body '>' with Some i -> String.sub body 0 i | None -> body) in
   if body = "-" then []
   else List.init (String.length body) (fun i -> if body.[i] = '1' then V1 else V2)
 let p_del rest = match rest with
@@ -777,7 +798,7 @@ let run_check (path : string) =
       (match r with
        | "ok" :: _ ->
          c.copen <- true; c.ckeys_ <- cfg.ckeys; c.ctimes_ <- cfg.ctimes; c.cro_ <- cfg.cro;
-         c.cnewv <- cfg.cnewver;
+         c.cnewv <- cfg.cnewver; c.ckeepv <- cfg.ckeeprw;
          if not cfg.cro then (match cfg.cnewver with V1 -> c.v1ok <- true | V2 -> c.v2ok <- true);
          c.files_after_migrate <- None; c.migrated <- None;
          mutated c
@@ -813,6 +834,18 @@ let run_check (path : string) =
         let o = obs_of r p_del in
         if not c.tainted then
           chk "C12" "delete" (check_delete c.a (isz ()) (parse_offsets offs) o) r;
+        (* C17: the rewritten segment keeps the format it had (KeepRewriteVersion) or takes NewSegmentsVersion.
+           token "v=<format of the segment of each deleted message, before>><format of the survivors' segment, after>" *)
+        (match r with
+         | "ok" :: _ :: vs :: _ when String.length vs > 3 ->
+           (match String.index_opt vs '>' with
+            | Some i when i >= 3 && i + 1 < String.length vs ->
+              let before = vs.[2] and after = vs.[i + 1] in
+              if after <> '-' then
+                chk "C17" "rewritten_version_as_configured"
+                  (after = (if c.ckeepv then before else (match c.cnewv with V1 -> '1' | V2 -> '2'))) r
+            | _ -> ())
+         | _ -> ());
         (match o with OOk (_, ms) -> ignore (apply_deleted "C12" ms r) | OErr _ -> ())
       end
     | ["delm"; offs] ->
